@@ -61,6 +61,8 @@ Fixpoint getsig (s : nat) (t : sigtab) : nat :=
   end.
 Definition setsig (s h : nat) (t : sigtab) : sigtab := (s, h) :: t.
 Definition h_reactor := 9.                                   (* the reactor's own handler *)
+Definition h_none := 5.   (* what signal.getsignal() reports as None: a handler that was not installed from Python.
+                             Nobody can install it: signal.signal(sig, None) raises TypeError *)
 Definition reactor_signals := [sig_int; sig_term; sig_chld]. (* what reactor.run() installs *)
 
 (* ---- state ---- *)
@@ -74,7 +76,10 @@ Record spinner := mkSp {
 }.
 Definition new_spinner := mkSp None None [] false None [].
 
-Inductive stopfn := SReal | SFake.  (* what the attribute reactor.stop currently is *)
+(* what the attribute reactor.stop currently is: the reactor's stock method, an override that somebody
+   installed on the reactor instance before the call (a shutdown hook, a logging wrapper: it goes on to
+   call the stock stop), or the spinner's _fake_stop *)
+Inductive stopfn := SReal | SUser (k : nat) | SFake.
 
 Record world := mkW {
   w_r : reactor action;
@@ -144,7 +149,7 @@ Definition timed_out (w : world) : world :=
 Definition reactor_stop (w : world) : world :=
   match w_stop w with
   | SFake => set_r (crash (w_r w)) w
-  | SReal => set_r (real_stop (w_r w)) w
+  | SReal | SUser _ => set_r (real_stop (w_r w)) w
   end.
 
 Definition log_ran (t : nat) (w : world) : world := set_ran (w_ran w ++ [t]) w.
@@ -198,9 +203,12 @@ Definition exec_hook (inner : world -> res value exc * world) (a : action) (w : 
 (* ---- signals, 262-273 ---- *)
 Definition save_signals (w : world) : world :=
   set_sp (sp_set_saved (map (fun s => (s, getsig s (w_sig w))) preserved_signals) (w_sp w)) w.
+(* _restore_signals, 270-277: a handler getsignal() reported as None cannot be put back (signal.signal rejects
+   None) and is skipped *)
+Definition restore_step (t : sigtab) (sh : nat * nat) : sigtab :=
+  if Nat.eqb (snd sh) h_none then t else setsig (fst sh) (snd sh) t.
 Definition restore_signals (w : world) : world :=
-  set_sp (sp_set_saved [] (w_sp w))
-         (set_sig (fold_left (fun t sh => setsig (fst sh) (snd sh) t) (sp_saved (w_sp w)) (w_sig w)) w).
+  set_sp (sp_set_saved [] (w_sp w)) (set_sig (fold_left restore_step (sp_saved (w_sp w)) (w_sig w)) w).
 
 (* reactor.run(): installs its own handlers, runs the startup hooks, then the loop *)
 Definition install_reactor_signals (w : world) : world :=
